@@ -1,6 +1,7 @@
 import Hls.Proto
 import Hls.Playlist.Multi
 import Hls.Playlist.Grammar
+import Hls.Playlist.MultiSpec
 /-! Model driver for the `multi` correspondence stream (C14 / C15, multivariant half +
     lexical primitives).  One observation line per op line.
 
@@ -19,6 +20,9 @@ import Hls.Playlist.Grammar
       brm <len> <start|~>      ByteRange.Marshal              -> <hex text>
       mar <value>              Multivariant.Marshal, then Unmarshal of the result
                                                               -> m=<hex text> u=ok <value> | u=err:<class>
+                                                                 wf=<WFMultivariant> lex=<wf and LexicalOK> [env=BAD]
+                               (the harness prints its own, independently written, validity verdicts; `env=BAD` =
+                                the value is well-formed but the float envelope `FloatOK` fails at it)
       unm <hex>                Multivariant.Unmarshal         -> ok <value> | err:<class>
       unmv <hex>               same (the harness additionally expects the value of the last `mar`)
       pl <hex>                 playlist.Unmarshal             -> none | multi <value> | other
@@ -173,7 +177,11 @@ def runOp (ws : List String) : Option String :=
   | "mar" :: rest => do
     let m ← parseValue rest
     let t := m.marshal
-    some s!"m={hexOfStr t} u={fmtRes (Multivariant.unmarshal t)}"
+    let wf := decide (WFMultivariant m)
+    let lex := wf && decide (LexicalOK m)
+    -- the float envelope, evaluated at this value: a well-formed value outside it is reported
+    let env := if wf && !decide (FloatOK m) then " env=BAD" else ""
+    some s!"m={hexOfStr t} u={fmtRes (Multivariant.unmarshal t)} wf={b01 wf} lex={b01 lex}{env}"
   | ["unm", h] => do some (fmtRes (Multivariant.unmarshal (← strOfHex h)))
   | ["gram", h] => do some (if Grammar.acceptsMultivariant (← strOfHex h) then "1" else "0")
   | ["unmv", h] => do some (fmtRes (Multivariant.unmarshal (← strOfHex h)))
